@@ -1156,7 +1156,17 @@ class Interp:
                 if isinstance(c, dict):
                     key = i[1] if isinstance(i, tuple) else i
                     if key not in c:
-                        c[key] = None        # std::map::operator[] inserts a value-initialised element (a null pointer)
+                        # std::map::operator[] inserts a value-initialised element: a null pointer, an empty string, a zero
+                        mt = dqt(args[0]) + ' ' + qt(args[0])
+                        import re as _re2
+                        mm = _re2.search(r'map<\s*[^,]+,\s*([^,>]+(?:<[^>]*>)?)', mt)
+                        mapped = (mm.group(1) if mm else '').strip()
+                        if 'basic_string' in mapped or mapped in ('std::string', 'string'):
+                            c[key] = ('str', '')
+                        elif mapped in ('int', 'unsigned int', 'unsigned', 'long', 'unsigned long', 'bool', 'size_t'):
+                            c[key] = const(32, mapped in ('int', 'long'), 0)
+                        else:
+                            c[key] = None
                     return c[key]
                 raise AnalysisBroken('operator[] on %r at %s' % (c, pos(n)))
             if name in ('operator==', 'operator!='):
@@ -1368,6 +1378,9 @@ class Interp:
             if isinstance(o, tuple) and o and o[0] in ('str', 'cat', 'num') and name in ('push_back', 'append') and len(args) == 1:
                 lv = self.lval(obj, env)
                 self.store(lv, str_cat(o, self.expr(args[0], env)), env)
+                return None
+            if isinstance(o, tuple) and o and o[0] in ('str', 'cat', 'num') and name == 'assign' and len(args) == 1:
+                self.store(self.lval(obj, env), self.expr(args[0], env), env)
                 return None
             if isinstance(o, tuple) and o and o[0] in ('str', 'cat', 'num') and name == 'assign' and len(args) == 2:
                 a, b = self.expr(args[0], env), self.expr(args[1], env)
